@@ -119,7 +119,7 @@ def fresh_clone(g):
     return h
 
 
-FRESH_QUERIES = ('calc_chi2', 'edge_error', 'edge_chi2', 'edge_jacobians', 'edge_contribs', 'to_g2o', 'vertex_to_g2o', 'edge_to_g2o')
+FRESH_QUERIES = ('edge_numjac', 'calc_chi2', 'edge_error', 'edge_chi2', 'edge_jacobians', 'edge_contribs', 'to_g2o', 'vertex_to_g2o', 'edge_to_g2o')
 
 
 class Session:
@@ -197,6 +197,10 @@ class Session:
             return dg(e.calc_chi2())
         if q == 'edge_jacobians':
             return dg(*e.calc_jacobians())
+        if q == 'edge_numjac':
+            # numerical differentiation asked for explicitly (the documented way of validating an analytic Jacobian), whatever the edge class
+            from graphslam.edge.base_edge import BaseEdge
+            return dg(*BaseEdge.calc_jacobians(e))
         if q == 'edge_contribs':
             c2, gr, he = e.calc_chi2_gradient_hessian()
             return dg(c2, *[a for _, a in gr], *[a for _, a in he], str([i for i, _ in gr]), str([i for i, _ in he]))
@@ -246,8 +250,18 @@ class Session:
             delta = np.full(a.COMPACT_DIMENSIONALITY, 0.125)
             big = np.full(a.COMPACT_DIMENSIONALITY, 0.75)          # (for SE(3): a rotational increment OUTSIDE the boxplus domain, norm 1.3)
             before = (dg(a), dg(b), dg(pt), dg(delta), dg(big))
+            def opt(f, *args):
+                try:
+                    return f(*args)
+                except NotImplementedError:
+                    return 'not-implemented'
             outs = [a + b, a - b, a.inverse, a + pt, a + delta, a + big, a.to_array(), a.to_compact(), a.position, np.atleast_1d(a.orientation), a.jacobian_boxplus(),
                     a.jacobian_self_oplus_other_wrt_self(b), a.jacobian_self_ominus_other_wrt_other(b), a.jacobian_inverse()]
+            for nm in ('jacobian_self_oplus_other_wrt_self_compact', 'jacobian_self_oplus_other_wrt_other', 'jacobian_self_oplus_other_wrt_other_compact',
+                       'jacobian_self_ominus_other_wrt_self', 'jacobian_self_ominus_other_wrt_self_compact', 'jacobian_self_ominus_other_wrt_other_compact'):
+                outs.append(opt(getattr(a, nm), b))
+            for nm in ('jacobian_self_oplus_point_wrt_self', 'jacobian_self_oplus_point_wrt_point'):
+                outs.append(opt(getattr(a, nm), pt))
             if hasattr(a, 'to_matrix'):
                 outs.append(a.to_matrix())
             self.ok = before == (dg(a), dg(b), dg(pt), dg(delta), dg(big))
@@ -267,7 +281,10 @@ class Session:
     # ---- flags ----
     def set_fixed(self, idx, flag):
         g = self.g
-        g._vertices[(idx - 1) % len(g._vertices)].fixed = bool(flag)
+        # (the flag is whatever truthy / falsy value user code assigns: a bool, an int, a numpy bool or integer)
+        self.edits += 1
+        val = [bool(flag), int(bool(flag)), np.bool_(bool(flag)), np.int64(bool(flag))][self.edits % 4]
+        g._vertices[(idx - 1) % len(g._vertices)].fixed = val
         self.emit({'op': 'SetFixed', 'idx': (idx - 1) % len(g._vertices) + 1, 'flag': bool(flag)}, g._vertices, g._edges)
 
     # ---- the user's own edits between calls (public attributes) ----
@@ -315,12 +332,37 @@ class Session:
             e.information = np.asarray(e.information) * 2.0
         self.emit({'op': 'SetMeas', 'idx': j + 1}, g._vertices, g._edges)
 
+    @staticmethod
+    def _all_expressible(g):
+        """Every edge that has a writer can be expressed by the format: SE(2)/SE(3) odometry, SE(2) landmark edges with identity offset, SE(3)
+        landmark edges whose offset id is registered with exactly that offset (G2O!EdgeExpressible / G2O!WellFormed on the numbers)."""
+        from graphslam.pose.se2 import PoseSE2
+        from graphslam.pose.se3 import PoseSE3
+        reg = getattr(g, '_g2o_params', None) or {}
+        for e in g._edges:
+            if type(e) is EdgeOdometry:
+                if not isinstance(e.estimate, (PoseSE2, PoseSE3)):
+                    return False
+            elif type(e) is EdgeLandmark:
+                if isinstance(e.offset, PoseSE2) and isinstance(e.vertices[0].pose, PoseSE2):
+                    if np.any(np.asarray(e.offset)):
+                        return False
+                elif isinstance(e.offset, PoseSE3) and isinstance(e.vertices[0].pose, PoseSE3):
+                    par = reg.get(('PARAMS_SE3OFFSET', e.offset_id))
+                    val = getattr(par, 'value', None)
+                    if e.offset_id is None or val is None or not np.array_equal(np.asarray(val), np.asarray(e.offset)):
+                        return False
+                else:
+                    return False
+        return True
+
     # ---- file round trip: the session continues on Graph.from_g2o(file written by to_g2o) ----
     def reload(self):
         g = self.g
         fd, path = tempfile.mkstemp(suffix='.g2o')
         os.close(fd)
         raised, g2 = False, None
+        expressible = bool(self._all_expressible(g))
         try:
             g.to_g2o(path)
             g2 = Graph.from_g2o(path)
@@ -329,7 +371,7 @@ class Session:
         finally:
             os.unlink(path)
         if raised:
-            self.emit({'op': 'Reload', 'raised': True, 'bound': [], 'gidx': [], 'chi2Ok': True}, g._vertices, g._edges)
+            self.emit({'op': 'Reload', 'raised': True, 'expressible': expressible, 'bound': [], 'gidx': [], 'chi2Ok': True}, g._vertices, g._edges)
             return False
         # chi^2 of what the file carries: the original graph without the edges that have no writer (evaluated on the ORIGINAL objects)
         kept = [e for e in g._edges if type(e) in (EdgeOdometry, EdgeLandmark)]
@@ -340,7 +382,7 @@ class Session:
         gidx = [int(v.gradient_index) if v.gradient_index is not None else -1 for v in g2._vertices]
         self.g = g2
         self.vs, self.es = g2._vertices, g2._edges
-        self.emit({'op': 'Reload', 'raised': False, 'bound': bound, 'gidx': gidx, 'chi2Ok': chi_ok}, g2._vertices, g2._edges,
+        self.emit({'op': 'Reload', 'raised': False, 'expressible': expressible, 'bound': bound, 'gidx': gidx, 'chi2Ok': chi_ok}, g2._vertices, g2._edges,
                   {'chi2_before': want, 'chi2_after': got})
         return True
 
